@@ -341,7 +341,20 @@ def dom1(m, run, rule='DOM1.domain-ends'):
 
 # ---------------------------------------------------------------------------------------------- AG5
 def ag5(m, run, rule='AG5.serial-parallel'):
-    # (a) voxelisation: st and mp apply is_point_inside_voxel(voxel, datapts, tol=tol) to every voxel, in order
+    # (a) voxelisation: decided on an abstract grid with a recorder predicate and a stub pool (AG52); the rule that reads the pool call corroborates
+    from .. import skel_drivers as _sd
+    n0 = len(run.obs)
+    _sd.ag52(m, run, rule)
+    ok52 = all(o.ok for o in run.obs[n0:])
+    with run.corroborating(ok52, 'AG52', rules=(rule,)):
+        _ag5_voxel_syntactic(m, run, rule)
+    # the dispatch in voxelize.voxelize is decided on an abstract container (serial and parallel receive the same per-element arguments)
+    _sd.vx3(m, run, rule)
+    _ag5_container(m, run, rule)
+
+
+def _ag5_voxel_syntactic(m, run, rule):
+    # st and mp apply is_point_inside_voxel(voxel, datapts, tol=tol) to every voxel, in order
     st, mp = m.func('_voxelize.find_inouts_st'), m.func('_voxelize.find_inouts_mp')
     pcs = ag.pool_calls(mp.node)
     if len(pcs) != 1:
@@ -391,9 +404,9 @@ def ag5(m, run, rule='AG5.serial-parallel'):
            % (wname, sorted(rest_s.items()), it_txt, sorted(pargs.items()), mapped), site(mp, pc))
     # filled flag equals the predicate value in the serial branch
     # (`if pts_inside: filled[idx] = 1` with filled initialised to 0 and the worker returning 0/1)
-    # the dispatch in voxelize.voxelize is decided on an abstract container (serial and parallel receive the same per-element arguments)
-    from .. import skel_drivers as _sd
-    _sd.vx3(m, run, rule)
+
+
+def _ag5_container(m, run, rule):
     # (b) container tessellation
     ct = m.func('multi.SurfaceContainer.tessellate')
     pcs = ag.pool_calls(ct.node)
